@@ -3,7 +3,7 @@ judged by ConnObs.tla through TLC trace validation (TraceConn.tla)."""
 import json, os, random, re, subprocess, sys, time, shutil, glob
 import vlib, tlaval
 
-FAMILY_OF = {'C05': 'close', 'C06': 'req', 'C07': 'read', 'C08': 'flush', 'C09': 'cb'}
+FAMILY_OF = {'C04': 'stream', 'C05': 'close', 'C06': 'req', 'C07': 'read', 'C08': 'flush', 'C09': 'cb'}
 
 
 # ------------------------------------------------------------------ scenario generators
@@ -110,7 +110,34 @@ def gen_cb(rnd, i):
             'handler': hs, 'actors': _closers(rnd, 0, 1) if rnd.random() < 0.2 else [], 'peer': peer}
 
 
-GENS = {'close': gen_close, 'req': gen_req, 'read': gen_read, 'flush': gen_flush, 'cb': gen_cb}
+def gen_stream(rnd, i):
+    # C04 under the controlled scheduler: a reader goroutine mixing Next and Until against any chunking,
+    # or a handler consuming piecemeal, with the peer closing after its last byte
+    total = rnd.randint(3, 30)
+    peer, left = [], total
+    while left > 0:
+        k = rnd.randint(1, min(left, rnd.choice([1, 2, 3, 9])))
+        peer.append(['send', k])
+        left -= k
+    peer.append(['close'])
+    if rnd.random() < 0.5:
+        ops, pos = [], 0
+        while pos < total:
+            if rnd.random() < 0.5:
+                ops.append(['Until'])
+                pos += 7 - pos % 7
+            else:
+                n = rnd.randint(1, 4)
+                ops.append(['Next', n])
+                pos += n
+        return {'kind': 'client', 'onconnect': False, 'ondisconnect': False, 'onrequest': False, 'onprepare': True, 'nclosecb': 1,
+                'handler': [], 'actors': [{'name': 'reader', 'ops': ops}], 'peer': peer}
+    hs = [{'consume': rnd.choice([-1, 1, 2, 3]), 'then': rnd.choice(['return', 'yield'])} for _ in range(rnd.randint(1, 4))]
+    return {'kind': 'server', 'onconnect': rnd.random() < 0.2, 'ondisconnect': False, 'onrequest': True, 'onprepare': True, 'nclosecb': 1,
+            'connbody': 'return', 'handler': hs, 'actors': [], 'peer': peer}
+
+
+GENS = {'stream': gen_stream, 'close': gen_close, 'req': gen_req, 'read': gen_read, 'flush': gen_flush, 'cb': gen_cb}
 
 
 def gen_scenarios(family, n, seed):
@@ -158,11 +185,11 @@ def run_scenarios(sc, binary, scs, tag, procs=8, test='TestVerifConnScenarios'):
     return res, crashed
 
 
-def validate(sc, results, order, tag):
+def validate(sc, results, order, tag, module='TraceConn', deps=('ConnObs.tla',), key='scenario', stop='Quiescent'):
     """Concatenate the event traces and let TLC judge them. Returns (violations, lines, stats)."""
     wd = sc.path('tv_' + tag)
     os.makedirs(wd, exist_ok=True)
-    for f in ('ConnObs.tla', 'TraceConn.tla', 'TraceConn.cfg'):
+    for f in tuple(deps) + (module + '.tla', module + '.cfg'):
         shutil.copy(os.path.join(vlib.SPEC, f), wd)
     index = []  # (trace id, scenario id, first line)
     n = 0
@@ -177,12 +204,12 @@ def validate(sc, results, order, tag):
                 e['t'] = t
                 f.write(json.dumps(e) + '\n')
                 n += 1
-                if e['e'] == 'Quiescent':
+                if e['e'] == stop:
                     break
     if n == 0:
         return [], 0, {}
     p = vlib.run(['java', '-XX:+UseParallelGC', '-Xss64m', '-cp', vlib.TLA_CP, 'tlc2.TLC', '-workers', '1',
-                  '-metadir', os.path.join(wd, 'md'), '-config', 'TraceConn.cfg', 'TraceConn.tla'], cwd=wd, timeout=1800, check=False)
+                  '-metadir', os.path.join(wd, 'md'), '-config', module + '.cfg', module + '.tla'], cwd=wd, timeout=1800, check=False)
     out = p.stdout
     m = re.search(r'<<\s*"TRACE-RESULT",(.*?)>>\s*\n(?=Model checking|Finished|The|$)', out, re.S)
     if not m or 'Model checking completed. No error has been found' not in out:
@@ -193,7 +220,7 @@ def validate(sc, results, order, tag):
         raise vlib.Inconclusive('trace validation consumed %s of %s lines (%d written)' % (consumed, total, n))
     byt = {t: sid for t, sid, _ in index}
     first = {t: fl for t, _, fl in index}
-    vs = [{'scenario': byt[v[0]], 'line': v[1] - first[v[0]], 'rule': v[2]} for v in viol]
+    vs = [{key: byt[v[0]], 'scenario': byt[v[0]], 'line': v[1] - first[v[0]], 'rule': v[2]} for v in viol]
     st = vlib.tlc_stats(out)
     return vs, n, {'states': st[1] if st else n, 'transitions': st[0] if st else n}
 
@@ -209,6 +236,11 @@ def known_match(findings, v, res):
             continue
         if sig.get('ev_k') and ev.get('k') != sig['ev_k']:
             continue
+        npre = sig.get('closecb_not_by_prefix')
+        if npre:
+            starters = [e['g'] for e in evs[:v['line']] if e['e'] == 'CbStart' and e['k'].startswith('close')]
+            if not starters or any(g.startswith(npre) for g in starters):
+                continue
         pre = sig.get('closecb_by_prefix')
         if pre and not any(e['e'] == 'CbStart' and e['k'].startswith('close') and e['g'].startswith(pre) for e in evs[:v['line']]):
             continue
